@@ -19,14 +19,20 @@ Vectors(p) ==
         ro == Run(op)
         es == EngineRun(sp)
         eo == EngineRun(op)
+        ens == EngineRunNoSimp(sp)
+        eno == EngineRunNoSimp(op)
     IN (IF rs.hard THEN <<>>
         ELSE <<[ast |-> sp, den |-> rs.out, lo |-> rs.lo, hi |-> rs.hi, ordered |-> FALSE,
-                kind |-> "stream", eng |-> NormOut(es.out), engok |-> ~(es.m.bad \/ es.m.hard)]>>)
+                kind |-> "stream", eng |-> NormOut(es.out), engok |-> ~(es.m.bad \/ es.m.hard),
+                engns |-> NormOut(ens.out), engnsok |-> ~(ens.m.bad \/ ens.m.hard),
+                tree |-> TreeOf(sp), stree |-> Simplify(TreeOf(sp))]>>)
        \o
        (IF ro.hard THEN <<>>
         ELSE <<[ast |-> op, den |-> ro.out, lo |-> ro.lo, hi |-> ro.hi,
                 ordered |-> OrderFixed(p), kind |-> "single", eng |-> NormOut(eo.out),
-                engok |-> ~(eo.m.bad \/ eo.m.hard)]>>)
+                engok |-> ~(eo.m.bad \/ eo.m.hard),
+                engns |-> NormOut(eno.out), engnsok |-> ~(eno.m.bad \/ eno.m.hard),
+                tree |-> TreeOf(op), stree |-> Simplify(TreeOf(op))]>>)
 
 \* Programs that are not closed / not well-formed: the compiler must reject
 \* them (C03); bodies with an undefined stack effect are not generated.
@@ -43,7 +49,12 @@ GenVectors ==
         illf == SelectSeq(mine, LAMBDA r: IllFormed(r.p))
         vecs == FlatMap(LAMBDA r: Vectors(r.p), good)
                \o [j \in 1..Len(illf) |-> [ast |-> illf[j].p, kind |-> "illformed"]]
-    IN /\ ndJsonSerialize(OutFile, vecs)
+        BuildErr(p) == BuildQueryNoSimp(Cat(Prefix(Family), p)).err
+    IN \* the two notions of a closed, well-scoped program agree: Zw!WellFormed on the AST and the
+       \* exceptions of bindings::bind / READ in EngineOps!BuildT on the tree
+       /\ \A j \in 1..Len(illf) : BuildErr(illf[j].p) \/ (PrintT(<<"WFMISMATCH-ill", illf[j].p>>) /\ FALSE)
+       /\ \A j \in 1..Len(good) : ~BuildErr(good[j].p) \/ (PrintT(<<"WFMISMATCH-good", good[j].p>>) /\ FALSE)
+       /\ ndJsonSerialize(OutFile, vecs)
        /\ PrintT(<<"GEN", "total", Cardinality(all), "mine", Len(mine), "legal", Len(good),
                    "illformed", Len(illf), "vectors", Len(vecs)>>)
 
